@@ -39,7 +39,6 @@ pub fn phrases(shipped: &[(String, RawConstant)], rng: &mut Rng, cap: usize) -> 
             prefixes.insert(format!("{} {}", toks[0], &toks[1][..toks[1].len().min(2)]));
         }
     }
-    let mut out: Vec<String> = Vec::new();
     let mut all: Vec<String> = full.into_iter().collect();
     let mut rest: Vec<String> = single.union(&prefixes).cloned().collect();
     // seeded shuffle
@@ -49,12 +48,47 @@ pub fn phrases(shipped: &[(String, RawConstant)], rng: &mut Rng, cap: usize) -> 
             v.swap(i, j);
         }
     }
-    let half = cap / 2;
-    out.extend(all.into_iter().take(half));
+    let _ = cap;
+    all.extend(rest);
+    all
+}
+
+/// best-score tie set of a single-phrase query, from the lookup hook: (top list, number of documents sharing the best score)
+fn tie_size(db: &Db, q: &str) -> Option<usize> {
+    let o = run_query(db, q, false);
+    let lk: Vec<Value> = o.events.iter().filter_map(|e| serde_json::from_str::<Value>(e).ok()).filter(|v| v["ev"] == "lookup").collect();
+    if lk.len() != 1 || o.results.len() != 1 || o.results[0].is_err() {
+        return None;
+    }
+    let top = lk[0]["top"].as_array().cloned().unwrap_or_default();
+    if top.is_empty() {
+        return None;
+    }
+    let best = top[0][0].as_str().unwrap().to_string();
+    Some(top.iter().filter(|t| t[0].as_str() == Some(best.as_str())).count())
+}
+
+/// choose the query set: every ambiguous phrase first (several documents share the best score in a
+/// reference build), then unambiguous ones, up to `cap`; only phrases that are answered at all
+fn select(db: &Db, candidates: Vec<String>, cap: usize) -> Vec<String> {
+    let mut ties = Vec::new();
+    let mut plain = Vec::new();
+    let mut seen = BTreeSet::new();
+    for q in candidates {
+        if !seen.insert(q.clone()) {
+            continue;
+        }
+        match tie_size(db, &q) {
+            Some(n) if n > 1 => ties.push(q),
+            Some(_) => plain.push(q),
+            None => {}
+        }
+    }
+    let keep_ties = ties.len().min(cap * 3 / 4);
+    let mut out: Vec<String> = ties.into_iter().take(keep_ties).collect();
     let room = cap - out.len();
-    out.extend(rest.into_iter().take(room));
+    out.extend(plain.into_iter().take(room));
     out.sort();
-    out.dedup();
     out
 }
 
@@ -70,6 +104,7 @@ pub fn trace(args: &[String]) -> i32 {
     let mem_builds = arg_num(args, "--mem-builds", 4) as usize;
     let cap = arg_num(args, "--queries", 1500) as usize;
     let seed = arg_num(args, "--seed", 1);
+    let fresh_disk = arg_num(args, "--fresh-disk", 2) as usize;
     let _ = std::fs::remove_dir_all(&work);
     let home = work.join("home");
     std::fs::create_dir_all(&home).unwrap();
@@ -77,7 +112,10 @@ pub fn trace(args: &[String]) -> i32 {
     std::env::set_var("HOME", &home);
     let shipped = shipped_constants(&repo);
     let mut rng = Rng::new(seed);
-    let qs = phrases(&shipped, &mut rng, cap);
+    let candidates = phrases(&shipped, &mut rng, cap);
+    let reference = Db::in_memory().expect("reference in-memory database");
+    let qs = select(&reference, candidates, cap);
+    drop(reference);
 
     let mut plan: Vec<Session> = Vec::new();
     for _ in 0..mem_builds {
@@ -87,6 +125,9 @@ pub fn trace(args: &[String]) -> i32 {
     plan.push(Session { kind: "disk_reopen" });
     plan.push(Session { kind: "disk_rebuild" });
     plan.push(Session { kind: "disk_reopen" });
+    for _ in 0..fresh_disk {
+        plan.push(Session { kind: "disk_fresh" });
+    }
     plan.push(Session { kind: "memory" });
 
     let mut out = Out::create(&out_path);
@@ -103,6 +144,10 @@ pub fn trace(args: &[String]) -> i32 {
             let mut m: Value = serde_json::from_slice(&std::fs::read(&p).expect("meta.json")).expect("meta json");
             m["database_hash"] = json!("00000000000000000000000000000000");
             std::fs::write(&p, serde_json::to_vec(&m).unwrap()).unwrap();
+        }
+        if s.kind == "disk_fresh" {
+            // a first on-disk build again: the data directory is absent
+            let _ = std::fs::remove_dir_all(home.join("facts"));
         }
         anything::verif::take();
         anything::verif::enable(true);
@@ -146,14 +191,21 @@ pub fn trace(args: &[String]) -> i32 {
                 .filter_map(|e| serde_json::from_str::<Value>(e).ok())
                 .filter(|v| v["ev"] == "lookup")
                 .collect();
-            if lk.len() != 1 || o.results.len() != 1 {
-                continue; // not a single-phrase query after all (counted by absence)
-            }
-            let top = lk[0]["top"].as_array().cloned().unwrap_or_default();
-            if top.is_empty() {
-                continue; // nothing found: no winner to compare
-            }
+            // every phrase of the query set is answered by the reference build: no answer here is an answer that differs
+            let top = if lk.len() == 1 && o.results.len() == 1 && o.results[0].is_ok() {
+                lk[0]["top"].as_array().cloned().unwrap_or_default()
+            } else {
+                Vec::new()
+            };
             lookups += 1;
+            if top.is_empty() {
+                let what = match o.results.first() {
+                    Some(Err((m, _, _))) => m.clone(),
+                    _ => o.panic.clone().or(o.parse_error.clone()).unwrap_or_else(|| "no single answer".to_string()),
+                };
+                out.line(&json!({"ev": "lookup", "s": sid, "q": qi + 1, "phrase": q, "win": -1, "tie": [-1], "full": true, "none": what}));
+                continue;
+            }
             let best = top[0][0].as_str().unwrap().to_string();
             let tie: Vec<usize> = top
                 .iter()
